@@ -338,7 +338,7 @@ func (r *runner) checkCrashPoints(sc *Scenario, tw *twin) {
 					"initialisation inside step %d %s) differs from the image before the call in: %s", cp.K, cp.Step, s, df), extra)
 			}
 			gh := (*lib.Bundle)(nil)
-			if s.Op == "store" || s.Op == "finalise" {
+			if s.Op == "store" || s.Op == "finalise" || s.Op == "genesis" {
 				gh = s.B
 			}
 			r.checkRestartedImage(sc, cp.Img, before, gh, "crash-", extra)
@@ -352,7 +352,7 @@ func (r *runner) checkCrashPoints(sc *Scenario, tw *twin) {
 			}
 		case d == digBefore:
 			w = before
-			if s.Op == "store" || s.Op == "finalise" {
+			if s.Op == "store" || s.Op == "finalise" || s.Op == "genesis" {
 				ghost = s.B
 			}
 		case singleCommitOp(s.Op):
@@ -613,7 +613,7 @@ func (r *runner) runFault(sc *Scenario, tw *twin, k int) {
 		}
 		w := before
 		var ghost *lib.Bundle
-		if s.Op == "store" || s.Op == "finalise" {
+		if s.Op == "store" || s.Op == "finalise" || s.Op == "genesis" {
 			ghost = s.B
 		}
 		if s.Op == "prune" {
@@ -623,7 +623,7 @@ func (r *runner) runFault(sc *Scenario, tw *twin, k int) {
 			}
 		}
 		// in-memory filter vs what a restart would build from the surviving disk
-		if mem, err := n.memFilter(); err == nil && (s.Op == "store" || s.Op == "finalise" || s.Op == "revert") {
+		if mem, err := n.memFilter(); err == nil && (s.Op == "store" || s.Op == "finalise" || s.Op == "genesis" || s.Op == "revert") {
 			if disk, err := restartFilter(store, sc.Pruning); err == nil {
 				mo, do := sc.U.observeFilter(mem, w.Floor), sc.U.observeFilter(disk, w.Floor)
 				if mo != do {
@@ -756,7 +756,7 @@ func (r *runner) hitFeatures(sc *Scenario, i int) {
 	var b *lib.Bundle
 	pre := ""
 	switch s.Op {
-	case "store", "finalise":
+	case "store", "finalise", "genesis":
 		b, pre = s.B, "stored-block:"
 	case "revert":
 		b, pre = sc.worldBefore(i).Head(), "reverted-block:"
